@@ -336,6 +336,11 @@ func (x *Exec) runProperty(prop, mapFile, tier, evDir, dump, known, replayDir st
 		"contract_identifiers_remapped": x.renamed, // function -> {name in the contract: current name}; empty on the tree the contracts were written for
 		"loops_adopted_from_helpers":    x.adoptedLoops(),
 	}
+	if tier == "thorough" && len(ps.Deep) > 0 {
+		// which functions got the thorough treatment (long budgets, every back end on every path); the rest of the cone was
+		// decided with the quick tier's budgets
+		cov["thorough_treatment_functions"] = ps.Deep
+	}
 	ev := map[string]interface{}{
 		"property_id": prop,
 		"tier":        tier,
